@@ -17,6 +17,7 @@ struct Config
     int nvalues = 2;
     bool faults = false;
     int max_levels = 40;
+    size_t max_states = 400000; // a state space that keeps growing (e.g. states read from outside the storage) is cut off
     bool two_vector = true;
     std::string type_name = "Tracked";
 };
@@ -30,6 +31,7 @@ struct Explorer
     std::map<std::string, std::string> reps;   // abstract key -> recipe (first found)
     mc::Report total;
     bool exhaustive = true;
+    double started = mc::now_s();
 
     // ---- materialise a recipe on a fresh world; returns result slot or -1
     static int materialise(const std::string& recipe, World<T>& w, std::vector<Op>* ops_out = nullptr)
@@ -320,6 +322,9 @@ struct Explorer
         sh.nworkers = args.jobs;
         sh.tmpdir = args.tmpdir;
         sh.case_timeout_s = 20;
+        // every phase gets what is left of the wall-clock budget; when it runs out the phase stops taking cases
+        if (args.deadline_s > 0)
+            sh.deadline_s = std::max(2.0, args.deadline_s - (mc::now_s() - started));
         return sh;
     }
 
@@ -429,14 +434,16 @@ struct Explorer
                 auto rep = sh.run();
                 frontier = absorb(rep);
                 total.set_max("max_bfs_levels", level);
-                if (args.deadline_s > 0 && mc::now_s() - t0 > args.deadline_s)
+                if ((args.deadline_s > 0 && mc::now_s() - started > args.deadline_s) || states.size() > cfg.max_states)
                 {
                     exhaustive = false;
-                    total.count("deadline_hit");
+                    total.count(states.size() > cfg.max_states ? "state_cap_hit" : "deadline_hit");
+                    total.count("capped");
                     frontier.clear();
+                    level = cfg.max_levels; // leave both loops
                 }
             }
-            if (!frontier.empty())
+            if (!frontier.empty() || !exhaustive)
             {
                 exhaustive = false;
                 total.count("capped");
@@ -486,7 +493,7 @@ struct Explorer
         total.counters["concrete_states"] = states.size();
         total.counters["abstract_states"] = reps.size();
         // ---- fault enumeration: every (state, operation, throw position)
-        if (cfg.faults)
+        if (cfg.faults && (args.deadline_s <= 0 || mc::now_s() - started < args.deadline_s))
         {
             std::vector<std::string> keys;
             for (auto& s : states)
